@@ -437,6 +437,7 @@ static int countFds()
 static bool objScript(const char* script)
 {
   File* obj[3] = {new File, new File, new File};
+  Directory* dobj[3] = {new Directory, new Directory, new Directory};
   int base = countFds();
   bool good = true;
   char* copy = strdup(script);
@@ -462,7 +463,21 @@ static bool objScript(const char* script)
     }
     int i = it[1] - '0';
     if(i < 0 || i > 2) { good = false; break; }
-    if(c == 'o')
+    if(c == 'O')
+    { // Directory::open on Directory object i
+      char* s2 = 0;
+      char* t0 = strtok_r(it, ":", &s2); (void)t0;
+      char* a = strtok_r(0, ":", &s2);
+      if(!a || strtok_r(0, ":", &s2)) { good = false; break; }
+      bool ok = true;
+      String path = xl(a, ok);
+      if(!ok) { good = false; break; }
+      bool r = dobj[i]->open(path, String(), false);
+      printf(" O=%d/%d", r ? 1 : 0, countFds() - base);
+    }
+    else if(c == 'C' && !it[2]) { dobj[i]->close(); printf(" C=1/%d", countFds() - base); }
+    else if(c == 'X' && !it[2]) { delete dobj[i]; dobj[i] = new Directory; printf(" X=1/%d", countFds() - base); }
+    else if(c == 'o')
     {
       char* s2 = 0;
       char* t0 = strtok_r(it, ":", &s2); (void)t0;
@@ -480,7 +495,7 @@ static bool objScript(const char* script)
     else good = false;
   }
   free(copy);
-  for(int i = 0; i < 3; ++i) delete obj[i];
+  for(int i = 0; i < 3; ++i) { delete obj[i]; delete dobj[i]; }
   printf(" end=%d", countFds() - base);
   if(!good) printf(" bad");
   return good;
